@@ -108,6 +108,12 @@ def pool():
     out = [s for s in gen.curated_schemas() if not isinstance(s, str)]
     out += ["int", "long", "float", "string", "bytes"]
     out += list(gen.small_schemas(2, ["int", "string", "float", "bytes"]))
+    # named types reached through references inside arrays / maps whose own schema text does not change
+    out.append({"type": "record", "name": "ByRef", "fields": [
+        {"name": "p", "type": {"type": "record", "name": "Point", "fields": [{"name": "x", "type": "int"}, {"name": "y", "type": "int"}]}},
+        {"name": "ps", "type": {"type": "array", "items": "Point"}}, {"name": "pm", "type": {"type": "map", "values": "Point"}},
+        {"name": "c", "type": {"type": "enum", "name": "Color", "symbols": ["RED", "BLUE"]}, "default": "RED"},
+        {"name": "cs", "type": {"type": "array", "items": "Color"}}]})
     # a named type defined inline by the writer and referred to by name by the reader, and vice versa
     out.append({"type": "record", "name": "RefRec", "fields": [
         {"name": "e1", "type": {"type": "enum", "name": "Color", "symbols": ["R", "G"]}}, {"name": "e2", "type": "Color"}]})
@@ -124,6 +130,13 @@ def run_c08(tier, seed):
             continue
         data = [d for d in gen.data_for(pw, nsw, rng) if A.CONFORMS(d, pw, nsw, {})]
         data = data[:6] if tier == "quick" else data[:20]
+        # recursive / by-name types: values that actually go through the references
+        if isinstance(raw, dict) and raw.get("name") == "Tree":
+            data += [{"v": "r", "kids": [{"v": "a", "kids": []}, {"v": "b", "kids": [{"v": "c", "kids": []}]}]}]
+        if isinstance(raw, dict) and raw.get("name") == "LinkedList":
+            data += [{"value": 1, "next": {"value": 2, "next": {"value": 3, "next": None}}}]
+        if isinstance(raw, dict) and raw.get("name") == "ByRef":
+            data += [{"p": {"x": 1, "y": 2}, "ps": [{"x": 3, "y": 4}], "pm": {"k": {"x": 5, "y": 6}}, "cs": ["RED", "BLUE"]}]
         evo = steps(raw, rng)
         if raw == pool()[-1]:
             # swap definition and reference between the two fields
